@@ -349,7 +349,27 @@ func runC17(c *Ctx) {
 			}
 		}
 	}
-	c.obRF("R17.2", cl, "closes-original", len(closes) == 1, "Close closes the original stream", fmt.Sprintf("%d calls of orig.Close", len(closes)))
+	// (or from a deferred literal: the close then happens at every exit that follows the registration — the registration is
+	// what has to lie behind the open-state test)
+	var deferredCloses []*ssa.Defer
+	for _, d := range defersIn(cl) {
+		df := deferredBody(d)
+		if df == nil {
+			continue
+		}
+		for _, ci := range allCalls(df) {
+			cc := ci.Common()
+			if cc.IsInvoke() && cc.Method.Name() == "Close" {
+				if okO, _ := allOrigins(cc.Value, oFieldLoad(peekT, "orig", nil)); okO {
+					deferredCloses = append(deferredCloses, d)
+				}
+			}
+		}
+	}
+	for _, d := range deferredCloses {
+		c.obI("R17.2", d, "close-only-when-open", guardedBy(d, nil, factNil(isUnderlying(cl), false)), "the original stream is closed only in state open (underlying != nil): never twice", "a deferred orig.Close is registered on a path that has not found the reader open: closing an already closed reader closes the stream again")
+	}
+	c.obRF("R17.2", cl, "closes-original", len(closes)+len(deferredCloses) == 1, "Close closes the original stream", fmt.Sprintf("%d calls of orig.Close", len(closes)))
 	var marks []ssa.Instruction
 	for _, st := range fieldStores(cl, peekT, "underlying") {
 		if isNilConst(st.Val) {
@@ -401,14 +421,45 @@ func runC17(c *Ctx) {
 		recv := fn.Params[0]
 		allOK := true
 		n := 0
-		for _, in := range instrs(fn) {
-			fa, ok := in.(*ssa.FieldAddr)
-			if !ok || fa.X != ssa.Value(recv) {
-				continue
-			}
-			n++
-			if !guardedBy(fa, nil, factNil(vIs(recv), false)) {
-				allOK = false
+		for _, g2 := range append([]*ssa.Function{fn}, anonFuncsDeep(fn)...) {
+			for _, in := range ownInstrs(g2) {
+				fa, ok := in.(*ssa.FieldAddr)
+				if !ok {
+					continue
+				}
+				// the receiver itself, the cell it is spilled into when a literal captures it, or that capture inside the literal
+				isRecv := fa.X == ssa.Value(recv) || vIs(recv)(fa.X)
+				if !isRecv {
+					if okO, _ := allOrigins(fa.X, oIsValue(recv)); okO && g2 != fn {
+						isRecv = true
+					}
+				}
+				if !isRecv {
+					continue
+				}
+				n++
+				at := ssa.Instruction(fa)
+				if g2 != fn {
+					// inside a literal: judged where the literal is created / deferred in the method
+					at = nil
+					for _, in2 := range ownInstrs(fn) {
+						if mc, isMC := in2.(*ssa.MakeClosure); isMC {
+							root := g2
+							for root.Parent() != nil && root.Parent() != fn {
+								root = root.Parent()
+							}
+							if mc.Fn == ssa.Value(root) {
+								at = mc
+							}
+						}
+					}
+					if at == nil {
+						continue
+					}
+				}
+				if !guardedBy(at, nil, factNil(vIs(recv), false)) {
+					allOK = false
+				}
 			}
 		}
 		if allOK {
